@@ -51,6 +51,6 @@ shape("_DMMSchedule", bases=("_ChannelSchedule",), detuning_map=("ref", "Detunin
       _waiting_for_first_pulse=("bool", M))
 
 shape("_Schedule", max_duration=("opt", "int"),
-      items=(("map", "str", ("ref", "_ChannelSchedule")), M))   # the dict content of the subclass
+      _d=(("map", "str", ("ref", "_ChannelSchedule")), M))   # the dict content of the subclass
 
 declare_heap_fields()
